@@ -67,9 +67,18 @@ def run(F, R, tier):
     R.assumptions += ["core::fmt's Binary/Octal/LowerHex/UpperHex/Display render as documented (std)",
                       "the output of the character state machine for a given format string is not decided"]
     fb, fo = F.fn(P + "format_buf"), F.fn(P + "format_obj")
+    FO = P + "format_obj"
+    if fb is not None and fo is None:
+        # the renderer by role: the one function of the module, reachable from format_buf, that pads with `repeat`
+        from .lib import mir as M_
+        reach = M_.CallGraph(F).reachable_from([P + "format_buf"])
+        cands = [q for q in sorted(reach) if q in F.fns and q != P + "format_buf" and F.fns[q]["file"] == fb["file"] and H.body_of(F.fns[q]) is not None
+                 and any(c.get("k") == "mcall" and c["m"] == "repeat" for c in H.walk(H.body_of(F.fns[q])))]
+        if len(cands) == 1:
+            FO, fo = cands[0], F.fns[cands[0]]
     if not (R.anchor(P + "format_buf", fb) and R.anchor(P + "format_obj", fo)):
         return
-    bb = H.inline_helpers(F, H.body_of(fb), skip=(P + "format_obj",))
+    bb = H.inline_helpers(F, H.body_of(fb), skip=(FO,))
     bo = H.inline_helpers(F, H.body_of(fo))
     # ---- (a0) default justification and where the padding goes ------------------------------------------------------------------
     from .lib import decide as D
@@ -100,7 +109,7 @@ def run(F, R, tier):
         det = why
         if rows is not None:
             rows2 = [(e_, "pad-first" if "pad-first" in str(r_) else ("value-first" if "value-first" in str(r_) else "neither")) for e_, r_ in rows]
-            ok, det = D.check(rows2, [(r"^\w+ : SpecJustify$", "just"), (r"^\w+ : Object$", "kind")],
+            ok, det = D.check(rows2, [(r"^[\w\.\*&]+ : SpecJustify$", "just"), (r"^[\w\.\*&]+ : Object$", "kind")],
                               {"just": ("Left", "Right", "Default"), "kind": ("Integer", "Float", "Byte", "Str", "Char", "Bool", "Null", "Arr", "Map", "other")},
                               lambda e_: "value-first" if e_["just"] == "Left" else ("pad-first" if (e_["just"] == "Right" or e_["kind"] == "Integer") else "value-first"))
     R.ob("default-justify", "`<` pads on the right, `>` on the left; without either an integer is padded on the left (right-justified), every other value on the right",
@@ -160,7 +169,7 @@ def run(F, R, tier):
     R.ob("escape", "format_buf writes no other fixed text", not other, "literal writes: %s" % other, F.loc(fb))
     # ---- (c) argument selection -------------------------------------------------------------------------------------------------
     lets = {x["pat"]["id"]: x for x in H.walk(bb) if x.get("k") == "let" and x.get("pat", {}).get("k") == "bind" and x.get("init") is not None}
-    calls = [c for c in H.walk(bb) if c.get("k") == "call" and c.get("callee") == P + "format_obj"]
+    calls = [c for c in H.walk(bb) if c.get("k") in ("call", "mcall") and c.get("callee") == FO]
     kinds = []
 
     def guarded(name):
